@@ -5,16 +5,18 @@
 (* and so must the figures of a fresh manager fed the final objects          *)
 (* (event "rebuild").                                                         *)
 EXTENDS QuotaAccounting, TraceCommon, SequencesExt
+CONSTANT CheckFigures   \* TRUE for C01; FALSE when the same executor records runtime refreshes for C02 / C03
 
 Vec(m) == [d \in Dims |-> m[d]]
 QReq(e) == [name |-> e.name, parent |-> e.parent, isParent |-> e.isParent, lent |-> e.lent,
-            min |-> Vec(e.min), max |-> Vec(e.max)]
+            min |-> Vec(e.min), max |-> Vec(e.max),
+            weight |-> IF Has(e, "weight") THEN Vec(e.weight) ELSE Vec(e.max)]
 
 \* e.obs : quota name -> [fig |-> reported figures, pods |-> pod id -> isAssigned]
 ExpectedObs == [q \in DOMAIN quota |-> [fig |-> Figures(q), pods |-> [p \in PodsOf(q) |-> pod[p].assigned]]]
 ObsEq(o, x) == /\ DOMAIN o = DOMAIN x
                /\ \A q \in DOMAIN x : o[q].fig = x[q].fig /\ FEq(o[q].pods, x[q].pods)
-ObsOK(e) == Expect(ObsEq(e.obs, ExpectedObs'), ExpectedObs')
+ObsOK(e) == IF CheckFigures THEN Expect(ObsEq(e.obs, ExpectedObs'), ExpectedObs') ELSE TRUE
 
 \* one (sub-)operation as a state transformer; OK(...) = the history is one the plugin can deliver
 OpOK(S, o) ==
@@ -46,11 +48,12 @@ TSingle == /\ ~done /\ l <= TLen /\ Trace[l].op \in SingleOps
            /\ OpOK(Cur, Ev) /\ Becomes(OpF(Cur, Ev)) /\ ObsOK(Ev)
 \* operations issued concurrently from separate goroutines on distinct pods; observed at quiescence
 TPar    == IsEvent("par") /\ AllOK(Cur, Ev.ops, 1) /\ Becomes(ApplyAll(Cur, Ev.ops, 1)) /\ ObsOK(Ev)
-TSkip   == /\ ~done /\ l <= TLen /\ Trace[l].op \in {"resetAll", "node", "rebuild"}
+TNode   == IsEvent("node") /\ NodeDelta(Vec(Ev.delta)) /\ ObsOK(Ev)
+TSkip   == /\ ~done /\ l <= TLen /\ Trace[l].op \in {"resetAll", "rebuild"}
            /\ l' = l + 1 /\ UNCHANGED <<seg, done>>
            /\ Skip /\ ObsOK(Ev)
 
 TraceInit == \E i \in Starts : TraceStart(i) /\ Init
-TraceNext == TSingle \/ TPar \/ TSkip \/ (SegDone /\ UNCHANGED vars)
+TraceNext == TSingle \/ TPar \/ TNode \/ TSkip \/ (SegDone /\ UNCHANGED vars)
 TraceSpec == TraceInit /\ [][TraceNext]_<<vars, tvars>>
 =============================================================================
